@@ -220,8 +220,9 @@ def bad_cases(draw, backend):
     col = draw(st.sampled_from([c for c in sch.colls if not c.singleton]))
     m = NUMS[col.element]
     kind = draw(st.sampled_from(["unknown-key", "missing-key", "element-type-on-singleton", "no-element-type", "no-args", "two-args", "int-arg", "name-arg", "other-backend",
-                                 "select-on-singleton"]))
+                                 "select-on-singleton", "other-family-key", "other-family-key"]))
     md = None
+    prelude = None
     use = f"e.{col.accessor}('b').Select(lambda x: x.{m}())"
     if kind == "unknown-key":
         md = dict(good)
@@ -243,6 +244,21 @@ def bad_cases(draw, backend):
         use = f"e.{col.accessor}({draw(st.sampled_from(['1', '2.5', 'True', 'None']))}).Select(lambda x: x.{m}())"
     elif kind == "name-arg":
         use = f"e.{col.accessor}(e).Select(lambda x: x.{m}())"
+    elif kind == "other-family-key":
+        # a key that only the OTHER family of back ends knows (link_libraries: ATLAS; element_pointer: CMS) - whatever this process translated before
+        md = dict(good)
+        if backend == "atlas":
+            md["element_pointer"] = draw(st.booleans())
+            other = draw(st.sampled_from(["cms_aod", "cms_miniaod"]))
+            other_md = {"metadata_type": key[other], "name": "Theirs", "include_files": ["t.h"], "container_type": "ns::T", "element_type": "ns::TE", "contains_collection": True,
+                        "element_pointer": draw(st.booleans())}
+        else:
+            md["link_libraries"] = ["SomeLib"]
+            other = "atlas"
+            other_md = {"metadata_type": key[other], "name": "Theirs", "include_files": ["t.h"], "container_type": "ns::T", "element_type": "ns::TE", "contains_collection": True,
+                        "link_libraries": ["TheirLib"]}
+        if draw(st.integers(0, 3)) > 0:
+            prelude = (other, f"Select(MetaData(EventDataset('ds'), {other_md!r}), lambda e: e.Theirs('b').Select(lambda x: x.pt()))")
     elif kind == "other-backend":
         other = draw(st.sampled_from([b for b in BACKENDS if b != backend]))
         md = dict(good)
@@ -255,7 +271,7 @@ def bad_cases(draw, backend):
     ds = "EventDataset('ds')"
     if md is not None:
         ds = f"MetaData({ds}, {md!r})"
-    return {"backend": backend, "kind": kind, "text": f"Select({ds}, lambda e: {use})"}
+    return {"backend": backend, "kind": kind, "text": f"Select({ds}, lambda e: {use})", "prelude": prelude}
 
 
 # ---------------------------------------------------------------- workers
@@ -289,12 +305,18 @@ def worker(payload):
                key_fn=lambda c: jdump([c[0], [e.to_json() for e in c[4]]]), shrink_budget=60)
 
     def bad_body(c):
+        if c.get("prelude"):
+            # a well-formed declaration of the other family, translated by its own back end earlier in this process
+            try:
+                translate(c["prelude"][1], c["prelude"][0])
+            except Exception:
+                pass
         try:
             translate(c["text"], backend)
         except Exception as e:
             stats.case(jdump(c), True, [f"backend={backend}", "kind=bad", "bad=" + c["kind"], "raised=" + type(e).__name__], {"backend": backend, "bad": c["kind"], "query": c["text"][-200:]})
             return
-        raise Violation("accepted-" + c["kind"], f"malformed declaration / call accepted ({c['kind']})", {"backend": backend, "query": c["text"], "kind": "bad", "bad": c["kind"]})
+        raise Violation("accepted-" + c["kind"], f"malformed declaration / call accepted ({c['kind']})", {"backend": backend, "query": c["text"], "kind": "bad", "bad": c["kind"], "prelude": c.get("prelude")})
 
     hyp_search(bad_body, bad_cases(backend), max_examples=n_bad, seed=derive_seed(seed, "bad"), stats=stats, deadline=deadline, key_fn=jdump, shrink_budget=100)
 
@@ -356,6 +378,11 @@ def run(ctx: Ctx):
 
 def replay(case):
     if case.get("kind") == "bad":
+        if case.get("prelude"):
+            try:
+                translate(case["prelude"][1], case["prelude"][0])
+            except Exception:
+                pass
         try:
             translate(case["query"], case["backend"])
         except Exception:
